@@ -8,7 +8,7 @@ LOG=$OUT/confirm.log
 cd "$WT" || exit 2
 {
 echo "== confirm $TAG $(date -u +%FT%TZ)"
-git checkout -q -- . ; git clean -fdq -- . ':!target'
+git checkout -q -- . ; git clean -fdq -- . ':!target' ':!_out'
 git apply "$OUT/patch.diff" || { echo "PATCH DOES NOT APPLY"; exit 1; }
 mkdir -p "$DEMODIR/tests"; cp "$OUT/verif_demo.rs" "$DEMODIR/tests/verif_demo.rs"
 echo "-- demo WITH patch (expect failure)"
